@@ -14,7 +14,8 @@ class Prop(ConnProp):
                   "callbacks that themselves call the API; both pollers; both build flavours): UP exactly once, DOWN at most once "
                   "and only after UP, message callbacks only between them, no assertion failure, no use of a destroyed object, "
                   "descriptor closed at most once, only after DOWN and never while the channel is registered, DOWN <-> state "
-                  "kDisconnected, a released connection with no functor holding it is destroyed at the end of the iteration. "
+                  "kDisconnected, a released connection is destroyed by the next iteration (object freed, descriptor closed exactly once), forceClose() "
+                  "on any thread destroys it within two iterations. "
                   "Model tied to the code by T1 extraction and a differential run; an independent life-cycle oracle runs on the "
                   "implementation's own callback trace")
     level_note = ("Single loop: the cross-loop hop of TcpServer::removeConnection is collapsed; callback thread affinity is by "
